@@ -9,4 +9,5 @@ let all : (string * (Model.event list -> bool)) list = [
   ("C11", Model.chk_C11);
   ("C04", Model.chk_C04);
   ("C09", Model.chk_C09);
+  ("C10", Model.chk_C10);
 ]
